@@ -5,11 +5,11 @@ CONSTANTS
   MaxOps = 2
   MaxIno = 8
   Cfg <- MC_Cfg_seal_noopen
-  TaintOn = FALSE
+  TaintOn = TRUE
   Mode = "c18"
   InitS <- MC_S_plain
   ScenCfg <- MC_Scen_seal_noopen
   ScenTree <- MC_Tree_plain
 VIEW View
-INVARIANTS TreeOK Sealed SealRulesOK
+INVARIANTS TreeOK Sealed SealRulesOK Report
 CHECK_DEADLOCK FALSE
